@@ -33,10 +33,11 @@ class LayoutClient(Client):
         return None
 
 
-def run(fx, path, args, track_subs=True):
+def run(fx, path, args, track_subs=True, first_byte=None):
     b = fx.body(path)
     if b is None:
         return None, None
     ex = Executor(fx, LayoutClient(track_subs))
+    ex.first_byte = first_byte
     res = ex.run_body(b, args, State())
     return ex, [{"eff": s.eff, "out": o} for s, o in res]
